@@ -581,7 +581,13 @@ def run_real(case):
         bpn, ppn, res = [float(x) for x in pim._bpnts], [float(x) for x in pim._ppnts], tuple(int(x) for x in pim.resolution)
         d = np.array(case["dgm"], dtype=np.float64).reshape(-1, 2)
         with np.errstate(all="ignore"):
-            st, v, _ = call(pim.transform, d, skew=case["skew"])
+            if case.get("via") == "fit_transform":
+                # the other public route to an image: the ranges are first fitted to the diagram, so the mesh is read afterwards
+                st, v, _ = call(pim.fit_transform, d, skew=case["skew"])
+                if st == "ok":
+                    bpn, ppn, res = [float(x) for x in pim._bpnts], [float(x) for x in pim._ppnts], tuple(int(x) for x in pim.resolution)
+            else:
+                st, v, _ = call(pim.transform, d, skew=case["skew"])
     n = len(case["dgm"])
     path = None
     if n > 0 and st == "ok":
@@ -844,6 +850,7 @@ def run(ctx):
         if len(ctx.violations) > 5:
             return
     density_stream(ctx)
+    fit_transform_stream(ctx)
     for what, rec, op, _ in deferred:
         ctx.violation(what, rec, found_input=False, correspondence="img." + op)
 
@@ -908,6 +915,42 @@ def density_stream(ctx):
                 return
 
 
+def fit_transform_stream(ctx):
+    """[T] the property when the image comes from `fit_transform(diagram, skew=...)` (ranges fitted to the diagram, then the same
+    transform): every pixel of the fitted grid against the closed-form mass, (b,d) and (b,p) call styles.  What `fit` chooses as
+    ranges is C12/C18's; here the mesh is read from the imager after the call, and a call that raises is only counted."""
+    r = ctx.rng
+    target, done, guard = ctx.n(60, 400), 0, 0
+    while done < target and guard < 20 * target:
+        guard += 1
+        case = gen_case(ctx, kind=r.choice(["scalar", "diag_ne", "diag_eq", "uniform", "user_logistic"]))
+        if len(case["dgm"]) < 2 or outside_quantifier(case) is not None:
+            continue
+        bp = to_bp(case)
+        ext = [(max(q[t] for q in bp) - min(q[t] for q in bp)) / case["pixel_size"] + 1 for t in (0, 1)]
+        if ext[0] * ext[1] > 2500:                  # a far point makes the fitted grid huge: keep the closed-form sweep affordable
+            case["dgm"] = [row for row, q in zip(case["dgm"], bp) if abs(q[0] - bp[0][0]) < 20 * case["pixel_size"]
+                           and abs(q[1] - bp[0][1]) < 20 * case["pixel_size"]]
+            if len(case["dgm"]) < 2:
+                continue
+        case["via"], case["decoy"] = "fit_transform", False
+        st, v, path, bpn, ppn, res = run_real(case)
+        if st != "ok":
+            ctx.count("fit_transform_raised:" + str(v))
+            continue
+        if len(bpn) < 2 or len(ppn) < 2 or not all(math.isfinite(x) for x in bpn + ppn):
+            ctx.count("fit_transform_degenerate_grid")
+            continue
+        done += 1
+        ctx.count("fit_transform_cases:skew=%s" % case["skew"])
+        fail = property_fails(case, common.tolist(v), bpn, ppn, res)
+        ctx.test("mass_closed_form_via_fit_transform", fail is None)
+        if fail is not None:
+            ctx.violation("fit_transform(diagram, skew=%s): pixel is not the weighted kernel mass: %s" % (case["skew"], fail),
+                          {"op": "fit_transform", **case}, found_input=True, law="mass")
+            return
+
+
 def corpus_cases():
     base = {"birth_range": [0.0, 1.0], "pers_range": [0.0, 0.5], "pixel_size": 0.25, "rx_hint": 4, "ry_hint": 2, "skew": True,
             "dyadic": False}
@@ -970,7 +1013,8 @@ MANIFEST = {
             "hypothesis hcdf; that scipy's erfc-based norm_cdf is the standard normal CDF (C13's contract). [T] streams compare pixels of "
             "the real code with masses computed independently of persim (closed forms on all pixels, 1-D quadrature of the marginalised "
             "density for correlated Gaussians (|r| up to 0.999) on 3 pixels - 2 random, 1 nearest a point - per image up to 750 / 7500 pixels, "
-            "scipy dblquad of the density on 30 / 120 random pixels with |r| <= 0.9, quick / thorough; grids up to 64x64 / 128x2 pixels with the "
+            "scipy dblquad of the density on 30 / 120 random pixels with |r| <= 0.9, 60 / 400 images obtained through fit_transform (closed forms, "
+            "all pixels of the fitted grid), quick / thorough; grids up to 64x64 / 128x2 pixels with the "
             "closed-form kernels) to 1e-6 RELATIVE to the total absolute weight of the diagram (no floor at 1: tiny weights are not "
             "accepted vacuously). Float rounding is outside the theorems.",
     "technique": "Lean 4 theorems (incl. Mathlib measure theory) over a hand-written model + differential correspondence + numerical integration tests",
